@@ -77,6 +77,7 @@ class HangError(BaseException):
 class Run(object):
     def __init__(self, prog, schedule=None, tiebreak_seed=None, options=None, shared_dfns=None):
         self.prog = prog
+        self.finished = False
         self.options = options
         self.schedule = schedule      # list of kinds, one per scheduler flush round (steering) or None
         self.tb_seed = tiebreak_seed  # int: pseudo-random tie-break order per round, or None
@@ -113,6 +114,8 @@ class Run(object):
 
     # -- recording -------------------------------------------------------------------------------
     def emit(self, e, **kw):
+        if self.finished:
+            return          # e.g. a suspended generator of an abandoned task being closed by the garbage collector later on
         kw["e"] = e
         self.events.append(kw)
 
@@ -850,7 +853,8 @@ def run_program(prog, schedule=None, tb_seed=None, timeout=10, options=None):
         signal.signal(signal.SIGALRM, old)
     if hang:
         run.emit("Hang")
-    return {"events": run.events, "hang": hang, "crash": crash}
+    run.finished = True
+    return {"events": list(run.events), "hang": hang, "crash": crash}
 
 
 def main():
